@@ -516,3 +516,86 @@ func TestD27_NilEmbeddedPointer(t *testing.T) {
 		}
 	})
 }
+
+// D28: an issue of a z.CustomFunc schema (failing test without a Message, or a type mismatch) had an
+// empty Message under the default formatter and both shipped languages
+func TestD28_CustomSchemaMessage(t *testing.T) {
+	c := z.CustomFunc(func(p *int, ctx z.Ctx) bool { return false })
+	var n int
+	for _, in := range []any{5, "zz"} {
+		is := c.Parse(in, &n)
+		if len(is) != 1 || is[0].Message == "" {
+			t.Fatalf("input %v: issues %v (empty message)", in, is)
+		}
+	}
+}
+
+// D29: in Validate a slice Default was copied one level deep only: with a nested default ([][]string,
+// []*int, ...) the validated value shared the default's inner memory, so a destination-mutating
+// PostTransform changed the schema's default for every later use
+func TestD29_NestedSliceDefaultShared(t *testing.T) {
+	s := z.Slice(z.Slice(z.String())).Default([][]string{{"a", "b"}}).PostTransform(func(ptr any, ctx z.Ctx) error {
+		v := ptr.(*[][]string)
+		(*v)[0][0] = "MUTATED"
+		return nil
+	})
+	var first, second [][]string
+	s.Validate(&first)
+	s.Validate(&second)
+	if first[0][0] != "MUTATED" || second[0][0] != "MUTATED" || second[0][1] != "b" {
+		t.Fatalf("unexpected values %v %v", first, second)
+	}
+	// the default itself must be untouched: a third use on a value without the PostTransform's effect
+	probe := z.Slice(z.Slice(z.String()))
+	_ = probe
+	x := 7
+	sp := z.Slice(z.Ptr(z.Int())).Default([]*int{&x}).PostTransform(func(ptr any, ctx z.Ctx) error {
+		v := ptr.(*[]*int)
+		*(*v)[0] = 99
+		return nil
+	})
+	var p1 []*int
+	sp.Validate(&p1)
+	if x != 7 {
+		t.Fatalf("the schema's default pointee was modified through the validated value: %d", x)
+	}
+}
+
+// D29 (second half): the nested default must read the same on its second use
+func TestD29_NestedSliceDefaultSecondUse(t *testing.T) {
+	calls := 0
+	var seen []string
+	s := z.Slice(z.Slice(z.String())).Default([][]string{{"a"}}).PostTransform(func(ptr any, ctx z.Ctx) error {
+		v := ptr.(*[][]string)
+		seen = append(seen, (*v)[0][0])
+		(*v)[0][0] = "MUTATED"
+		calls++
+		return nil
+	})
+	var a, b [][]string
+	s.Validate(&a)
+	s.Validate(&b)
+	if calls != 2 || seen[0] != "a" || seen[1] != "a" {
+		t.Fatalf("second use saw %v (the first use changed the default)", seen)
+	}
+}
+
+// D30 (known finding): Custom[T].process stores the INPUT value itself in the destination; when T is a
+// slice (or map) the destination aliases the caller's input, so a destination-mutating PostTransform of
+// an enclosing struct makes Parse modify its input data
+func TestD30_CustomAliasesInput(t *testing.T) {
+	if os.Getenv("VERIF_DEMO_KNOWN") == "" {
+		t.Skip("known finding D30 (set VERIF_DEMO_KNOWN=1 to run)")
+	}
+	type D struct{ Tags []string }
+	s := z.Struct(z.Schema{"tags": z.CustomFunc(func(p *[]string, ctx z.Ctx) bool { return true })}).PostTransform(func(ptr any, ctx z.Ctx) error {
+		ptr.(*D).Tags[0] = "MUTATED"
+		return nil
+	})
+	in := map[string]any{"tags": []string{"a", "b"}}
+	var d D
+	s.Parse(in, &d)
+	if in["tags"].([]string)[0] != "a" {
+		t.Fatalf("Parse modified its input: %v", in)
+	}
+}
